@@ -16,13 +16,13 @@ include hgood
 
 omit hgood in
 theorem inv_flag {ctx : Ctx} {mc : MCtx} (hi : Inv fin ctx mc) (b : Bool) : Inv fin { ctx with forInItem := b } mc :=
-  ⟨hi.al, hi.head, hi.chains⟩
+  ⟨hi.al, hi.var, hi.chains⟩
 
 /-- the step for an attribute holding a list -/
 theorem cattrs_step_list {outer inner : Ctx} {omc imc : MCtx} (hio : Inv fin outer omc) (hii : Inv fin inner imc)
     (hof : outer.forInItem = false) (hif : inner.forInItem = false)
     (p : SPath) (kind : String) (hasInit forIn : Bool)
-    (hin : isFunctionKind kind = true → inner.varKind = .var ∧ inner.varScope = p)
+    (hin : InnerOK kind p inner)
     (a : String) (xs : List Val) (rest : List (String × Val))
     (h : factsAttrs fin recs omc imc p kind hasInit forIn ((a, .list xs) :: rest) = true)
     (ihList : ∀ (ctx : Ctx) (mc : MCtx), Inv fin ctx mc → factsList fin recs mc ctx.forInItem p a 0 xs = true →
@@ -33,7 +33,7 @@ theorem cattrs_step_list {outer inner : Ctx} {omc imc : MCtx} (hio : Inv fin out
   rw [factsAttrs.eq_2, Bool.and_eq_true] at h
   rw [condAttrs_cons_list, Bool.and_eq_true]
   refine ⟨?_, ihRest h.2⟩
-  refine roleCond_of_facts hio hii p a (.list xs) _ _ _ _ _ _ _ (fun hr => hin (roleOf_params_func hr)) h.1 ?_ ?_ ?_
+  refine roleCond_of_facts hio hii p a (.list xs) _ _ _ _ _ _ _ (fun hr => hin.1 (roleOf_params_func hr)) (fun hr => hin.2 (roleOf_catchParam hr)) h.1 ?_ ?_ ?_
   · intro hc; exact ihList outer omc hio (by rw [hof]; exact hc)
   · intro hc; exact ihList inner imc hii (by rw [hif]; exact hc)
   · intro hc; exact ihList outer omc hio (by rw [hof]; exact hc)
@@ -42,7 +42,7 @@ theorem cattrs_step_list {outer inner : Ctx} {omc imc : MCtx} (hio : Inv fin out
 theorem cattrs_step_nonlist {outer inner : Ctx} {omc imc : MCtx} (hio : Inv fin outer omc) (hii : Inv fin inner imc)
     (hof : outer.forInItem = false) (hif : inner.forInItem = false)
     (p : SPath) (kind : String) (hasInit forIn : Bool)
-    (hin : isFunctionKind kind = true → inner.varKind = .var ∧ inner.varScope = p)
+    (hin : InnerOK kind p inner)
     (a : String) (v : Val) (hnl : NotList v) (rest : List (String × Val))
     (h : factsAttrs fin recs omc imc p kind hasInit forIn ((a, v) :: rest) = true)
     (ihVal : ∀ (ctx : Ctx) (mc : MCtx), Inv fin ctx mc → factsVal fin recs mc ctx.forInItem (p ++ [(a, 0)]) v = true →
@@ -53,7 +53,7 @@ theorem cattrs_step_nonlist {outer inner : Ctx} {omc imc : MCtx} (hio : Inv fin 
   rw [factsAttrs.eq_3 _ _ _ _ _ _ _ _ _ _ _ hnl, Bool.and_eq_true] at h
   rw [condAttrs_cons_nonlist _ _ _ _ _ _ _ _ _ _ hnl, Bool.and_eq_true]
   refine ⟨?_, ihRest h.2⟩
-  refine roleCond_of_facts hio hii p a v _ _ _ _ _ _ _ (fun hr => hin (roleOf_params_func hr)) h.1 ?_ ?_ ?_
+  refine roleCond_of_facts hio hii p a v _ _ _ _ _ _ _ (fun hr => hin.1 (roleOf_params_func hr)) (fun hr => hin.2 (roleOf_catchParam hr)) h.1 ?_ ?_ ?_
   · intro hc; exact ihVal { outer with forInItem := true } omc (inv_flag hio true) hc
   · intro hc; exact ihVal inner imc hii (by rw [hif]; exact hc)
   · intro hc; exact ihVal outer omc hio (by rw [hof]; exact hc)
@@ -80,14 +80,14 @@ mutual
           simp only [hn] at h ⊢
           exact refSite_refCond hi h
       · simp only [hid, Bool.false_eq_true, if_false, Bool.and_eq_true] at h ⊢
-        obtain ⟨⟨hk1, hk2⟩, h3⟩ := h
+        obtain ⟨hk2, h3⟩ := h
         cases he : enterFacts fin recs mc p k as with
         | none => rw [he] at h3; cases h3
         | some inner =>
           rw [he] at h3
           simp only at h3
           have hi0 : Inv fin { ctx with forInItem := false } mc := inv_flag hi false
-          obtain ⟨hec, hinv, hvar⟩ := enter_of_facts recs hgood hi0 p k as hk1 hk2 inner he
+          obtain ⟨hec, hinv, hvar⟩ := enter_of_facts recs hgood hi0 p k as hk2 inner he
           refine ⟨hec, ?_⟩
           have hif : (enter { ctx with forInItem := false } p k as).forInItem = false := by
             rw [enter_unfold]
@@ -109,7 +109,7 @@ mutual
       simp only [condList, Bool.and_eq_true]
       exact ⟨condVal_of_facts ctx mc _ v hi h.1, condList_of_facts ctx mc p a (i + 1) rest hi h.2⟩
   theorem condAttrs_of_facts : ∀ (outer inner : Ctx) (omc imc : MCtx) (p : SPath) (kind : String)
-      (hasInit forIn : Bool) (_ : isFunctionKind kind = true → inner.varKind = .var ∧ inner.varScope = p)
+      (hasInit forIn : Bool) (_ : InnerOK kind p inner)
       (as : List (String × Val)), Inv fin outer omc → Inv fin inner imc → outer.forInItem = false →
       inner.forInItem = false → factsAttrs fin recs omc imc p kind hasInit forIn as = true →
       condAttrs (tauFin fin) (rhoFin fin) outer inner p kind hasInit forIn as = true
